@@ -9,6 +9,32 @@
 #include "gauss.h"
 #include "rat.h"
 
+#include <limits>
+
+// "no numeric_limits": for the archetype every value-returning member of
+// std::numeric_limits is deleted, so a library template that asks for
+// max(), epsilon(), infinity(), ... of its scalar does not compile here.
+// (Without this the primary template would quietly hand out T().)
+// is_specialized stays readable and false: branching on it is legitimate.
+namespace std {
+template <>
+class numeric_limits<verif::Rat> {
+ public:
+  static constexpr bool is_specialized = false;
+  static verif::Rat min() = delete;
+  static verif::Rat max() = delete;
+  static verif::Rat lowest() = delete;
+  static verif::Rat epsilon() = delete;
+  static verif::Rat round_error() = delete;
+  static verif::Rat infinity() = delete;
+  static verif::Rat quiet_NaN() = delete;
+  static verif::Rat signaling_NaN() = delete;
+  static verif::Rat denorm_min() = delete;
+};
+template <>
+class numeric_limits<const verif::Rat> : public numeric_limits<verif::Rat> {};
+}  // namespace std
+
 #ifndef C19_SCALAR
 #define C19_SCALAR verif::Rat
 #endif
